@@ -200,3 +200,191 @@ package components
 //@   loop 1 invariant stable: p == old(p) && p.outPorts == old(p.outPorts) && selOutsOK(p) && ips != nil && (forall k string :: k in ips ==> validIP(ips[k]) && selTupleKey(k))
 //@   loop 2 invariant all-pass: forall k string :: k in ips ==> selIncludes(ips[k])
 //@   loop 2 invariant stable: p == old(p) && p.outPorts == old(p.outPorts) && selOutsOK(p) && ips != nil && (forall k string :: k in ips ==> validIP(ips[k]) && selTupleKey(k))
+
+// FileSplitter: every line read is written exactly once, in order, to the current part; a part is closed, finalized and
+// sent when it holds LinesPerSplit lines and never holds more; parts are numbered consecutively from 1; the last part
+// is closed, finalized and sent when the scan ends. Files are abstracted by the log of strings written to them
+// (fwN/fwAt, maintained by the assumed contract of (*os.File).WriteString).
+//@ ghost var fwN arr[ref]int
+//@ ghost var fwAt arr[ref]arr[int]string
+//@ ghost func createdName(f ref) string
+//@ ghost func splitPathOf(base string, idx int) string
+//@ extern (*os.File).WriteString(f, s) (n, err)
+//@   modifies fwN, fwAt
+//@   ensures logged: fwN == update(old(fwN), f, old(fwN)[f] + 1) && fwAt == update(old(fwAt), f, update(old(fwAt)[f], old(fwN)[f], s))
+//@ extern os.Create(name) (file, err)
+//@   modifies fwN, effCreated, fsEpoch
+//@   ensures created: err == nil ==> file != nil && createdName(file) == name && fwN == update(old(fwN), file, 0)
+//@   ensures eff: effCreated == setAdd(old(effCreated), name)
+
+//@ func (*FileSplitter).InFile(p) (res)
+//@   props C19
+//@   ensures def: "file" in p.inPorts && res == p.inPorts["file"]
+//@ func (*FileSplitter).OutSplitFile(p) (res)
+//@   props C19
+//@   ensures def: "split_file" in p.outPorts && res == p.outPorts["split_file"]
+
+//@ func (*FileSplitter).newSplitIPFromIndex(p, basePath, splitIdx) (res)
+//@   props C19
+//@   modifies fresh, locked
+//@   assumes named-by-index: res.path == splitPathOf(basePath, splitIdx)
+//@   ensures valid: validIP(res) && fresh(res) && !res.doStream && len(res.path) > 0
+//@   ensures logs-kept: fwN == old(fwN) && fwAt == old(fwAt) && outN == old(outN) && outAt == old(outAt) && scanPos == old(scanPos)
+
+//@ func (*FileSplitter).createNewSplitFile(p, ip, basePath) (tempDir, tempFile)
+//@   props C19
+//@   requires ip: ip != nil && ip.BaseIP != nil
+//@   modifies fwN, effCreated, effMkdir, fsEpoch
+//@   ensures file: tempFile != nil && createdName(tempFile) == basePath + "/" + tempPathOf(ip.path) && fwN == update(old(fwN), tempFile, 0)
+
+//@ define splitterOK(p *FileSplitter) bool = p.LinesPerSplit >= 1 && wfSrcOut(p.BaseProcess, "split_file") && p.inPorts != nil && "file" in p.inPorts && p.inPorts["file"] != nil && p.inPorts["file"].Chan != nil
+//@ func (*FileSplitter).Run(p)
+//@   props C19
+//@   requires wf: splitterOK(p)
+//@   modifies *
+//@   atcall (*os.File).WriteString writes-the-line-just-read-to-the-current-part[C19]: $arg0 == splitFile && $arg1 == scanLine(scanner, scanPos[scanner] - 1) + "\n"
+//@   atcall (*os.File).Close part-holds-at-most-the-line-limit[C19]: $arg0 == splitFile ==> fwN[splitFile] <= p.LinesPerSplit && (forall j int :: 0 <= j && j < fwN[splitFile] ==> fwAt[splitFile][j] == scanLine(scanner, (splitNo - 1) * p.LinesPerSplit + j) + "\n")
+//@   atcall FinalizePaths finalizes-the-part-just-closed[C19]: len($arg1) == 1 && $arg1[0] == splitIP && $arg0 == taskDir
+//@   atcall (*OutPort).Send sends-the-part-just-finalized[C19]: $arg1 == splitIP && finalizeTried[splitIP]
+//@   atcall (*FileSplitter).newSplitIPFromIndex parts-are-numbered-consecutively-from-one[C19]: $arg2 == splitNo && $arg1 == inIP.path
+//@   loop 0 invariant stable: p == old(p) && splitterOK(p) && p.outPorts == old(p.outPorts) && p.inPorts == old(p.inPorts)
+//@   loop 1 invariant stable: p == old(p) && splitterOK(p) && p.outPorts == old(p.outPorts) && p.inPorts == old(p.inPorts) && scanner != nil && splitFile != nil && validIP(splitIP) && !splitIP.doStream && len(splitIP.path) > 0 && inIP != nil
+//@   loop 1 invariant count: lineNo == scanPos[scanner] + 1 && splitNo >= 1 && fwN[splitFile] == lineNo - 1 - (splitNo - 1) * p.LinesPerSplit && 0 <= fwN[splitFile] && fwN[splitFile] < p.LinesPerSplit
+//@   loop 1 invariant content: forall j int :: 0 <= j && j < fwN[splitFile] ==> fwAt[splitFile][j] == scanLine(scanner, (splitNo - 1) * p.LinesPerSplit + j) + "\n"
+//@   loop 1 invariant part-name: splitIP.path == splitPathOf(inIP.path, splitNo)
+
+// Concatenator: every arriving file is read once and its content, then a newline, is appended to the output file of its
+// group (the main output when it has no value for the GroupByTag tag); the outputs are sent only after all inputs were
+// written and the files were closed.
+//@ extern (*os.File).Write(f, b) (n, err)
+//@   modifies fwN, fwAt
+//@   ensures logged: fwN == update(old(fwN), f, old(fwN)[f] + 1) && fwAt == update(old(fwAt), f, update(old(fwAt)[f], old(fwN)[f], b))
+
+//@ func (*Concatenator).In(p) (res)
+//@   props C19
+//@   ensures def: "in" in p.inPorts && res == p.inPorts["in"]
+//@ func (*Concatenator).Out(p) (res)
+//@   props C19
+//@   ensures def: "out" in p.outPorts && res == p.outPorts["out"]
+
+//@ func (*Concatenator).Run(p)
+//@   props C19
+//@   requires wf: wfSrcOut(p.BaseProcess, "out") && p.inPorts != nil && "in" in p.inPorts && p.inPorts["in"] != nil && p.inPorts["in"].Chan != nil
+//@   modifies *
+//@   atcall io/ioutil.ReadFile reads-the-file-that-arrived[C19]: $arg0 == inIP.path
+//@   atcall (*OutPort).Send outputs-sent-only-after-every-input-was-written[C19]: chanRecvN(p.inPorts["in"].Chan) == chanTotal(p.inPorts["in"].Chan)
+//@   atcall (*os.File).Write writes-the-content-just-read-or-its-newline-to-the-file-of-its-group[C19]: ($arg1 == dat || $arg1 == "\n") && (tagVal != "" ==> $arg0 == outFhsByTag[tagVal])
+//@   atcall (*os.File).Write untagged-content-goes-to-the-main-output-file[C19]: tagVal == "" ==> createdName($arg0) == p.OutPath
+//@   assumecall (*FileIP).AddTag the-new-group-ip-has-a-record: ptr(FileIP, $arg0).auditInfo != nil
+//@   loop 0 invariant stable: p == old(p) && p.OutPath == old(p.OutPath) && outIP.path == p.OutPath && p.outPorts == old(p.outPorts) && p.inPorts == old(p.inPorts) && p.inPorts["in"] == old(p.inPorts["in"]) && p.inPorts["in"].Chan == old(p.inPorts["in"].Chan) && wfSrcOut(p.BaseProcess, "out") && "in" in p.inPorts && p.inPorts["in"] != nil && p.inPorts["in"].Chan != nil && outIPsByTag != nil && outFhsByTag != nil && validIP(outIP) && (forall k string :: k in outIPsByTag ==> validIP(outIPsByTag[k]))
+//@   loop 1 invariant stable: p == old(p) && p.outPorts == old(p.outPorts) && p.inPorts == old(p.inPorts) && p.inPorts["in"] == old(p.inPorts["in"]) && p.inPorts["in"].Chan == old(p.inPorts["in"].Chan) && wfSrcOut(p.BaseProcess, "out")
+//@   loop 1 invariant drained: chanRecvN(p.inPorts["in"].Chan) == chanTotal(p.inPorts["in"].Chan)
+//@   loop 1 invariant out-valid: validIP(outIP) && outIPsByTag != nil
+//@   loop 1 invariant tagged-valid: forall k string :: k in outIPsByTag ==> validIP(outIPsByTag[k])
+//@   loop 2 invariant drained: p == old(p) && p.outPorts == old(p.outPorts) && p.inPorts == old(p.inPorts) && p.inPorts["in"] == old(p.inPorts["in"]) && p.inPorts["in"].Chan == old(p.inPorts["in"].Chan) && wfSrcOut(p.BaseProcess, "out") && chanRecvN(p.inPorts["in"].Chan) == chanTotal(p.inPorts["in"].Chan) && outIPsByTag != nil && (forall k string :: k in outIPsByTag ==> validIP(outIPsByTag[k]))
+//@   loop 0 step untagged-arrival-appends-content-then-newline[C19]: tagVal == "" ==> fwN[outFh] == prev(fwN)[outFh] + 2 && fwAt[outFh][prev(fwN)[outFh]] == dat && fwAt[outFh][prev(fwN)[outFh] + 1] == "\n" && dat == fileBytes(inIP.path, fsEpoch)
+//@   loop 0 step earlier-content-kept[C19]: tagVal == "" ==> forall j int :: 0 <= j && j < prev(fwN)[outFh] ==> fwAt[outFh][j] == prev(fwAt)[outFh][j]
+
+// Combinators. The Cartesian product itself (recursive combine: nonlinear index arithmetic) is NOT under proof; a bounded
+// stand-in runs the real functions exhaustively over a small domain (reported as BOUNDED, never counted as proved).
+//@ func combine(inParams, keys) (res)
+//@   props C19
+//@   trusted recursion over the key list with nonlinear index arithmetic (head x tail expansion): not brought under proof
+//@   modifies fresh
+//@   assumes only-input-keys: forall k string :: k in res ==> k in inParams
+//@   bounded cartesian-product-exactly-once[C19]: combine_param_test.go TestGovcBoundedCombineParam :: at most 3 ports, at most 3 distinct values per port, every order of the key list
+//@ func (*FileCombinator).combine(p, inIPs, keys) (res)
+//@   props C19
+//@   trusted recursion over the key list with nonlinear index arithmetic (head x tail expansion): not brought under proof
+//@   modifies fresh
+//@   assumes only-input-keys: forall k string :: k in res ==> k in inIPs
+//@   assumes rows-hold-only-valid-items: (forall k string, j int :: k in inIPs && 0 <= j && j < len(inIPs[k]) ==> validIP(inIPs[k][j])) ==> (forall k string, j int :: k in res && 0 <= j && j < len(res[k]) ==> validIP(res[k][j]))
+//@   bounded cartesian-product-exactly-once[C19]: combine_file_test.go TestGovcBoundedCombineFile :: at most 3 ports, at most 3 distinct files per port, every order of the key list
+
+//@ extern (*sync.WaitGroup).Add(wg, delta)
+//@ extern (*sync.WaitGroup).Done(wg)
+//@ extern (*sync.WaitGroup).Wait(wg)
+
+// ParamCombinator.Run: every in-port is read until it is closed, each received value is appended to the list of its port;
+// combine is called only when every port is drained; one go-routine per resulting row sends that row, in order, on the
+// out-port of the same name.
+//@ func (*ParamCombinator).OutParam(p, pName) (res)
+//@   props C19
+//@   ensures def: pName in p.outParamPorts && res == p.outParamPorts[pName]
+
+//@ define combOutsOK(p *ParamCombinator) bool = p.outParamPorts != nil && (forall k string :: k in p.outParamPorts ==> p.outParamPorts[k] != nil && wfOutParamPort(p.outParamPorts[k]))
+//@ func (*ParamCombinator).Run$1()
+//@   props C19
+//@   requires wf: combOutsOK(p) && pName in p.outParamPorts
+//@   modifies *
+//@   ensures sends-its-row-in-order-on-the-port-of-its-name[C19]: poutN[old(p.outParamPorts[pName])] == old(poutN[p.outParamPorts[pName]]) + len(old(ps)) && (forall j int :: 0 <= j && j < len(old(ps)) ==> poutAt[old(p.outParamPorts[pName])][old(poutN[p.outParamPorts[pName]]) + j] == old(ps)[j])
+//@   loop 0 invariant range: 0 <= $i && $i <= len(ps)
+//@   loop 0 invariant stable: p == old(p) && ps == old(ps) && pName == old(pName) && p.outParamPorts == old(p.outParamPorts) && p.outParamPorts[pName] == old(p.outParamPorts[pName]) && pName in p.outParamPorts && combOutsOK(p)
+//@   loop 0 invariant so-far: poutN[p.outParamPorts[pName]] == old(poutN[p.outParamPorts[pName]]) + $i && (forall j int :: 0 <= j && j < $i ==> poutAt[p.outParamPorts[pName]][old(poutN[p.outParamPorts[pName]]) + j] == ps[j])
+
+//@ define combInOK(p *ParamCombinator) bool = p.inParamPorts != nil && (forall k string :: k in p.inParamPorts ==> p.inParamPorts[k] != nil && p.inParamPorts[k].Chan != nil) && (forall k1 string, k2 string :: k1 in p.inParamPorts && k2 in p.inParamPorts && k1 != k2 ==> p.inParamPorts[k1].Chan != p.inParamPorts[k2].Chan)
+//@ func (*ParamCombinator).Run(p)
+//@   props C19
+//@   requires wf: combInOK(p) && combOutsOK(p) && (forall k string :: k in p.inParamPorts ==> k in p.outParamPorts)
+//@   modifies *
+//@   atcall combine every-in-port-was-read-until-closed[C19]: forall k string :: k in p.inParamPorts ==> k in inParams && chanRecvN(p.inParamPorts[k].Chan) == chanTotal(p.inParamPorts[k].Chan)
+//@   atcall combine all-keys-passed[C19]: forall k string :: k in inParams ==> exists j int :: 0 <= j && j < len(keys) && keys[j] == k
+//@   loop 0 invariant stable: p == old(p) && p.inParamPorts == old(p.inParamPorts) && p.outParamPorts == old(p.outParamPorts) && combInOK(p) && combOutsOK(p) && inParams != nil && (forall k string :: k in p.inParamPorts ==> k in p.outParamPorts)
+//@   loop 0 invariant chan-same: forall k string :: k in p.inParamPorts ==> p.inParamPorts[k] == old(p.inParamPorts[k]) && p.inParamPorts[k].Chan == old(p.inParamPorts[k].Chan)
+//@   loop 0 invariant vis: forall k string :: $visited[k] ==> k in p.inParamPorts
+//@   loop 0 invariant collected: forall k string :: $visited[k] ==> k in inParams
+//@   loop 0 invariant drained: forall k string :: $visited[k] ==> chanRecvN(p.inParamPorts[k].Chan) == chanTotal(p.inParamPorts[k].Chan)
+//@   loop 0 invariant only-ports: forall k string :: k in inParams ==> $visited[k]
+//@   loop 1 invariant stable: p == old(p) && p.inParamPorts == old(p.inParamPorts) && p.outParamPorts == old(p.outParamPorts) && combInOK(p) && combOutsOK(p) && inParams != nil && pName in p.inParamPorts && inPort == p.inParamPorts[pName] && pName in inParams && (forall k string :: k in p.inParamPorts ==> k in p.outParamPorts)
+//@   loop 1 invariant chan-same: forall k string :: k in p.inParamPorts ==> p.inParamPorts[k] == old(p.inParamPorts[k]) && p.inParamPorts[k].Chan == old(p.inParamPorts[k].Chan)
+//@   loop 1 invariant vis: forall k string :: $visited0[k] ==> k in p.inParamPorts
+//@   loop 1 invariant collected: forall k string :: $visited0[k] ==> k in inParams
+//@   loop 1 invariant drained: forall k string :: $visited0[k] && k != pName ==> chanRecvN(p.inParamPorts[k].Chan) == chanTotal(p.inParamPorts[k].Chan)
+//@   loop 1 invariant only-ports: forall k string :: k in inParams ==> $visited0[k]
+//@   loop 1 step collects-the-received-value-at-the-end-of-its-ports-list[C19]: len(inParams[pName]) >= 1 && inParams[pName][len(inParams[pName]) - 1] == newParam
+//@   loop 2 invariant keys-so-far: forall k string :: $visited[k] ==> exists j int :: 0 <= j && j < len(keys) && keys[j] == k
+//@   loop 2 invariant stable: p == old(p) && p.inParamPorts == old(p.inParamPorts) && p.outParamPorts == old(p.outParamPorts) && combOutsOK(p) && inParams != nil && (forall k string :: k in inParams ==> k in p.outParamPorts)
+//@   loop 2 invariant drained: forall k string :: k in p.inParamPorts ==> k in inParams && chanRecvN(p.inParamPorts[k].Chan) == chanTotal(p.inParamPorts[k].Chan)
+//@   loop 3 invariant outs: p == old(p) && p.outParamPorts == old(p.outParamPorts) && combOutsOK(p) && (forall k string :: k in outIPs ==> k in p.outParamPorts)
+
+// FileCombinator.Run: as ParamCombinator.Run, for file ports.
+//@ func (*FileCombinator).Out(p, pName) (res)
+//@   props C19
+//@   ensures def: pName in p.outPorts && res == p.outPorts[pName]
+
+//@ define fcombOutsOK(p *FileCombinator) bool = p.outPorts != nil && (forall k string :: k in p.outPorts ==> p.outPorts[k] != nil && wfOutPort(p.outPorts[k]))
+//@ func (*FileCombinator).Run$1()
+//@   props C19
+//@   requires wf: fcombOutsOK(p) && pName in p.outPorts && (forall j int :: 0 <= j && j < len(ips) ==> validIP(ips[j]))
+//@   modifies *
+//@   ensures sends-its-row-in-order-on-the-port-of-its-name[C19]: outN[old(p.outPorts[pName])] == old(outN[p.outPorts[pName]]) + len(old(ips)) && (forall j int :: 0 <= j && j < len(old(ips)) ==> outAt[old(p.outPorts[pName])][old(outN[p.outPorts[pName]]) + j] == old(ips)[j])
+//@   loop 0 invariant range: 0 <= $i && $i <= len(ips)
+//@   loop 0 invariant stable: p == old(p) && ips == old(ips) && pName == old(pName) && p.outPorts == old(p.outPorts) && p.outPorts[pName] == old(p.outPorts[pName]) && pName in p.outPorts && fcombOutsOK(p) && (forall j int :: 0 <= j && j < len(ips) ==> validIP(ips[j]))
+//@   loop 0 invariant so-far: outN[p.outPorts[pName]] == old(outN[p.outPorts[pName]]) + $i && (forall j int :: 0 <= j && j < $i ==> outAt[p.outPorts[pName]][old(outN[p.outPorts[pName]]) + j] == ips[j])
+
+//@ func (*FileCombinator).Run(p)
+//@   props C19
+//@   requires wf: wfInPorts(p.inPorts) && fcombOutsOK(p) && (forall k string :: k in p.inPorts ==> k in p.outPorts)
+//@   modifies *
+//@   atcall (*FileCombinator).combine every-in-port-was-read-until-closed[C19]: forall k string :: k in p.inPorts ==> k in inIPs && chanRecvN(p.inPorts[k].Chan) == chanTotal(p.inPorts[k].Chan)
+//@   atcall (*FileCombinator).combine all-keys-passed[C19]: forall k string :: k in inIPs ==> exists j int :: 0 <= j && j < len(keys) && keys[j] == k
+//@   loop 0 invariant stable: p == old(p) && p.inPorts == old(p.inPorts) && p.outPorts == old(p.outPorts) && wfInPorts(p.inPorts) && fcombOutsOK(p) && inIPs != nil && (forall k string :: k in p.inPorts ==> k in p.outPorts)
+//@   loop 0 invariant chan-same: forall k string :: k in p.inPorts ==> p.inPorts[k] == old(p.inPorts[k]) && p.inPorts[k].Chan == old(p.inPorts[k].Chan)
+//@   loop 0 invariant vis: forall k string :: $visited[k] ==> k in p.inPorts
+//@   loop 0 invariant collected: forall k string :: $visited[k] ==> k in inIPs
+//@   loop 0 invariant drained: forall k string :: $visited[k] ==> chanRecvN(p.inPorts[k].Chan) == chanTotal(p.inPorts[k].Chan)
+//@   loop 0 invariant only-ports: forall k string :: k in inIPs ==> $visited[k]
+//@   loop 0 invariant items-valid: forall k string, j int :: k in inIPs && 0 <= j && j < len(inIPs[k]) ==> validIP(inIPs[k][j])
+//@   loop 1 invariant stable: p == old(p) && p.inPorts == old(p.inPorts) && p.outPorts == old(p.outPorts) && wfInPorts(p.inPorts) && fcombOutsOK(p) && inIPs != nil && pName in p.inPorts && inPort == p.inPorts[pName] && pName in inIPs && (forall k string :: k in p.inPorts ==> k in p.outPorts)
+//@   loop 1 invariant chan-same: forall k string :: k in p.inPorts ==> p.inPorts[k] == old(p.inPorts[k]) && p.inPorts[k].Chan == old(p.inPorts[k].Chan)
+//@   loop 1 invariant vis: forall k string :: $visited0[k] ==> k in p.inPorts
+//@   loop 1 invariant collected: forall k string :: $visited0[k] ==> k in inIPs
+//@   loop 1 invariant drained: forall k string :: $visited0[k] && k != pName ==> chanRecvN(p.inPorts[k].Chan) == chanTotal(p.inPorts[k].Chan)
+//@   loop 1 invariant only-ports: forall k string :: k in inIPs ==> $visited0[k]
+//@   loop 1 invariant items-valid: forall k string, j int :: k in inIPs && 0 <= j && j < len(inIPs[k]) ==> validIP(inIPs[k][j])
+//@   loop 1 step collects-the-received-file-at-the-end-of-its-ports-list[C19]: len(inIPs[pName]) >= 1 && inIPs[pName][len(inIPs[pName]) - 1] == newIP
+//@   loop 2 invariant keys-so-far: forall k string :: $visited[k] ==> exists j int :: 0 <= j && j < len(keys) && keys[j] == k
+//@   loop 2 invariant stable: p == old(p) && p.inPorts == old(p.inPorts) && p.outPorts == old(p.outPorts) && fcombOutsOK(p) && inIPs != nil && (forall k string :: k in inIPs ==> k in p.outPorts)
+//@   loop 2 invariant drained: forall k string :: k in p.inPorts ==> k in inIPs && chanRecvN(p.inPorts[k].Chan) == chanTotal(p.inPorts[k].Chan)
+//@   loop 2 invariant items-valid: forall k string, j int :: k in inIPs && 0 <= j && j < len(inIPs[k]) ==> validIP(inIPs[k][j])
+//@   loop 3 invariant outs: p == old(p) && p.outPorts == old(p.outPorts) && fcombOutsOK(p) && (forall k string :: k in outIPs ==> k in p.outPorts) && (forall k string, j int :: k in outIPs && 0 <= j && j < len(outIPs[k]) ==> validIP(outIPs[k][j]))
